@@ -5,7 +5,7 @@ sector is stamped with its own file position are read back through dump-sector (
 sweeps in the thorough tier) and TraceContainers.tla judges where each shown sector came from; MMB slot status bytes
 0..255 are judged against doc/mmb.5."""
 import os, json, re
-import common, mkdisc
+import common, mkdisc, readtrace
 from discread import parse_dump
 
 SALT = 77
@@ -150,6 +150,29 @@ def run(chk, tier, seed):
                 # not a C04 matter in itself (C13 owns the choice of geometry): recorded, and the sector observations above decide
                 chk.extra.setdefault("geometry_not_as_intended", []).append(dict(kind=kind, cyl=cyl, spt=spt, attached=m))
                 chk.drift += 1
+        # ReadStack.tla: the hook events of every layer of a few reads of every container, replayed through the specification with
+        # the container's kind and geometry as context: the FileView each attached drive reads through must be Layout.tla's View
+        # and every position the view computes the one the specification computes
+        rs_jobs = []
+        for (kind, cyl, spt), (path, drives, nfile) in sorted(files.items()):
+            for h, drv in sorted(drives.items()):
+                if kind == "plain1" and h == 1:
+                    continue
+                for t, s_ in ((0, 2), (1, 0), (cyl - 1, spt - 1), (cyl, 0), (cyl // 2, spt // 2)):
+                    rs_jobs.append((dict(kind=kind, cyl=cyl, spt=spt), [dfs, "--file", path, "dump-sector", drv, str(t), str(s_)]))
+                rs_jobs.append((dict(kind=kind, cyl=cyl, spt=spt), [dfs, "--file", path, "cat", drv]))
+        for slot in mmb_slots:
+            for t, s_ in ((0, 2), (79, 9), (80, 0)):
+                rs_jobs.append((dict(kind="mmb", cyl=80, spt=10), [dfs, "--drive-first", "--file", mpath, "dump-sector", str(slot), str(t), str(s_)]))
+
+        def do_rs(ij):
+            i, (ctx, argv) = ij
+            o, evs = readtrace.record(argv, scratch, "c04-%d" % i, ctx=ctx)
+            return ("%s %dx%d: dfs %s (rc=%s)" % (ctx["kind"], ctx["cyl"], ctx["spt"], " ".join(argv[3:]), o.rc), evs)
+        rs_runs = common.pmap(do_rs, list(enumerate(rs_jobs)))
+        for desc, evs in rs_runs:
+            chk.case(("readstack", desc), nontrivial=len(evs) > 1)
+        readtrace.validate(chk, rs_runs, scratch, "readstack")
         # MMB status bytes: slot i has status i (i in 0..255); data exists for slots 0 and 15 only
         st_path = os.path.join(scratch, "status.mmb")
         status = {i: i for i in range(256)}
